@@ -70,6 +70,17 @@ class Gen:
             if r.random() < 0.4:
                 j = r.randrange(n)
                 items[j] = {"k": "splat", "p": {"k": "var", "n": self.name()} if r.random() < 0.8 else {"k": "wild"}}
+            if r.random() < 0.35:
+                # defaulted items: usually a trailing run (possibly around the splat), sometimes anywhere
+                idx = [j for j in range(n) if items[j]["k"] != "splat"]
+                run = r.randint(1, len(idx)) if idx else 0
+                chosen = idx[len(idx) - run:] if r.random() < 0.8 else [j for j in idx if r.random() < 0.5]
+                for j in chosen:
+                    inner = items[j]
+                    # `(p = dv)` parses only around a name, _, an annotated name or a bracketed / struct pattern
+                    if inner["k"] in ("var", "wild", "struct") or (inner["k"] == "seq" and inner["delim"]) or (
+                            inner["k"] == "ann" and inner["p"]["k"] in ("var", "wild")):
+                        items[j] = {"k": "dflt", "p": inner, "dv": r.choice([I(7), I(8), STR("d"), {"t": "null"}])}
             return {"k": "seq", "items": items, "delim": r.random() < 0.3}
         if k < 0.57:
             return {"k": "or", "a": self.pattern(d - 1), "b": self.pattern(d - 1)}
@@ -113,9 +124,13 @@ class Gen:
             for it in p["items"]:
                 if it["k"] == "splat":
                     xs += [self.value(0) for _ in range(r.randint(0, 2))]
+                elif it["k"] == "dflt" and r.random() < 0.5:
+                    continue                      # leave it to the default (boundary lengths)
                 else:
                     xs.append(self.fit(it, d - 1))
             return LIST(xs)
+        if k == "dflt":
+            return self.fit(p["p"], d)
         if k in ("or", "and"):
             return self.fit(p[r.choice(["a", "b"])], d)
         if k == "ann":
@@ -216,8 +231,10 @@ def run(rep, tier, seed, wd):
         vs = R.val_src(v)
         ps = R.pat_src(p, True)
         decl = ("%s = %s" if p["k"] == "ann" else "%s := %s") % (ps, vs)
-        items.append({"steps": [{"src": decl, "obs": names}], "group": 0})
-        meta.append(("decl", p, v, names))
+        top_dflt = p["k"] == "seq" and not p["delim"] and any(x["k"] == "dflt" for x in p["items"])
+        if not top_dflt:       # `a, (b = 1) := v` is judged by the MC replay (context decl); keep trace keys apart
+            items.append({"steps": [{"src": decl, "obs": names}], "group": 0})
+            meta.append(("decl", p, v, names))
         items.append({"steps": [{"src": "switch (%s) case %s -> \"arm\" case _ -> \"nomatch\"" % (vs, ps)}], "group": 0})
         meta.append(("switch", p, v, names))
         if not R.has_kind(p, ("lit",)):
